@@ -1072,6 +1072,42 @@ def check_root(T, mat, spelling):
     return None
 
 
+# --------------------------------------------------------------------------- what is modelled (not verified) / only exercised
+# every implementation object the Gallina model (coq/Model/C17_path.v, C17_static.v) mirrors by hand
+MODELLED = [
+    "webob.static:DirectoryApp.__init__",            # dirapp_root (abspath + trailing separator)
+    "webob.static:DirectoryApp.__call__.func",       # dirapp_call
+    "webob.static:DirectoryApp.index",               # dirapp_index
+    "webob.static:DirectoryApp.make_fileapp",        # DServe p  ->  fileapp (fs p)
+    "webob.static:FileApp.__call__.func",            # fileapp: method test, os.stat, open, wrapper / FileIter, Response(...)
+    "webob.static:FileIter.app_iter_range",          # fileiter, fileiter_loop, read_size
+    "webob.response:Response.conditional_response_app",   # fileapp: Range branch, 416 / 206 / 200, HEAD
+    "webob.response:Response.app_iter_range",        # range_iter
+    "webob.response:AppIterRange.__init__", "webob.response:AppIterRange._skip_start", "webob.response:AppIterRange.next",   # air
+    "webob.response:EmptyResponse",                  # HEAD: body = []
+    "webob.byterange:Range.range_for_length", "webob.byterange:Range.content_range",      # range_for_length
+    "webob.byterange:_is_content_range_valid",       # cr_valid
+]
+# CPython functions mirrored by coq/Model/C17_path.v (isabs, pjoin, normpath, abspath).  posixpath is a frozen module, so
+# inspect cannot show its source and ctx.modelled() would only hash the function's repr: recorded by stdlib_modelled() instead.
+MODELLED_STDLIB = ["posixpath:isabs", "posixpath:join", "posixpath:normpath", "posixpath:abspath"]
+REGENERATED = []          # nothing is translated from the source for C17 (coq/Gen/C17_trees_* holds generated test trees only)
+# implementation objects that only the oracle / the correspondence adaptors run through (their results are inputs of the model
+# or are compared as text by the oracle)
+ORACLE_ONLY = [
+    "webob.static:FileApp.__init__", "webob.static:FileIter.__init__", "webob.static:BLOCK_SIZE",
+    "webob.byterange:Range.parse", "webob.byterange:_rx_range", "webob.byterange:Range.__str__",
+    "webob.byterange:ContentRange.__init__", "webob.byterange:ContentRange.__str__",
+    "webob.request:BaseRequest.blank", "webob.request:environ_from_url", "webob.request:BaseRequest.path_info",
+    "webob.request:BaseRequest.path_url", "webob.request:BaseRequest.query_string", "webob.request:BaseRequest.range",
+    "webob.request:BaseRequest.get_response", "webob.request:BaseRequest.call_application",
+    "webob.dec:wsgify.__call__", "webob.dec:wsgify.__get__",
+    "webob.exc:HTTPForbidden", "webob.exc:HTTPNotFound", "webob.exc:HTTPMethodNotAllowed", "webob.exc:WSGIHTTPException.__call__",
+    "webob.response:Response.__init__", "webob.response:Response.body", "webob.response:filter_headers",
+    "webob.response:Response._abs_headerlist", "webob.response:iter_close",
+]
+
+
 # --------------------------------------------------------------------------- the check
 def report_corr(ctx, name, bad, cases, T, mat):
     """A model/implementation disagreement: run the property oracle on it."""
@@ -1169,7 +1205,40 @@ def confirm_replays(ctx):
             v["what"] += "  [seen only after earlier work in the same process; this single-request record passes in a fresh process]"
 
 
+def stdlib_modelled():
+    """file, line range and source hash of the posixpath functions the path model mirrors (read from posixpath.py with ast;
+    normpath has a pure-Python definition and, in 3.12, a wrapper around posix._path_normpath: both are recorded)."""
+    import ast
+    import posixpath
+    import sys
+    out = []
+    try:
+        text = open(posixpath.__file__).read()
+        tree = ast.parse(text)
+    except (OSError, SyntaxError) as e:
+        return [{"object": x, "error": "%s: %s" % (type(e).__name__, e)} for x in MODELLED_STDLIB]
+    lines = text.split("\n")
+    for spec in MODELLED_STDLIB:
+        name = spec.split(":")[1]
+        defs = [n for n in ast.walk(tree) if isinstance(n, ast.FunctionDef) and n.name == name]
+        if not defs:
+            out.append({"object": spec, "error": "not found in %s" % posixpath.__file__})
+        for n in defs:
+            src = "\n".join(lines[n.lineno - 1:n.end_lineno])
+            out.append({"object": spec, "file": posixpath.__file__, "python": sys.version.split()[0], "lines": [n.lineno, n.end_lineno],
+                        "sha1": hashlib.sha1(src.encode()).hexdigest()[:12],
+                        "in_use": getattr(posixpath, name).__code__.co_firstlineno == n.lineno})
+    return out
+
+
 def run(ctx):
+    ctx.modelled(MODELLED)
+    ctx.extra["modelled_stdlib"] = stdlib_modelled()
+    for r in ctx.extra["modelled_stdlib"]:
+        if "error" in r:
+            ctx.broken.append("modelled stdlib object %s: %s" % (r["object"], r["error"]))
+    ctx.extra["regenerated_from_source"] = REGENERATED
+    ctx.extra["oracle_only"] = ORACLE_ONLY
     ctx.build(["Props/C17.vo"])
     if ctx.thorough and getattr(ctx, "build_ok", False):
         coqchk(ctx)
